@@ -1,4 +1,5 @@
 import Exetera.Lemmas.TransformsLeaky
+import Exetera.Lemmas.TransformsCatChecked
 import Exetera.Lemmas.TransformsFixed
 import Exetera.Lemmas.TransformsBoolKernel
 import Exetera.Lemmas.TransformsNum
@@ -51,9 +52,9 @@ theorem categorical_import (cats : List (Bytes × Int)) (hnd : (cats.map (·.1))
     simp only
     rw [ih]; simp
 
-/- FULL STATEMENT (does not hold, NC06d): `categorical_property` — for every chunking, the import either raises or stores
-   `cellss.flatten.map value` where every cell has a value; a cell that is no key is never stored silently.
-   What is proved instead: -/
+/- FULL STATEMENT (did not hold for the code as found, NC06d; holds since fix NC06d: `categorical_property` below): for
+   every chunking, the import either raises or stores `cellss.flatten.map value` where every cell has a value; a cell that
+   is no key is never stored silently. What was proved about the importer as found (`categoricalImport`), kept: -/
 /-- when every cell is a category key, the column holds exactly the keys' values -/
 theorem categorical_property_partial (cats : List (Bytes × Int)) (hnd : (cats.map (·.1)).Nodup) (chunks : List Chunk)
     (cellss : List (List Bytes)) (h : EncodesAll chunks cellss)
@@ -67,6 +68,148 @@ theorem categorical_property_partial (cats : List (Bytes × Int)) (hnd : (cats.m
   rw [he] at this
   simp only [catCode, this, Option.getD_some]
   rw [← he]; exact hk
+
+/-! ### the importer with fix NC06d (`categoricalTransformChecked`, `categoricalImportPart`, `categoricalImportChecked`) -/
+
+/-- `categorical_transform` with fix NC06d, on any chunk: the staging array is the one the kernel as found filled
+    (`categorical_exact_match`), and the returned `first_unmatched` is the number of the FIRST row of the chunk whose text
+    equals no key (`none` = `-1`: every row matched). -/
+theorem categorical_transform_checked (cats : List (Bytes × Int)) (hnd : (cats.map (·.1)).Nodup) (c : Chunk)
+    (cells : List Bytes) (h : Encodes c cells) :
+    categoricalTransformChecked (getByteMap cats) c = .ok (cells.map (catCode cats), firstNoKey cats cells) ∧
+      categoricalTransform (getByteMap cats) c = .ok (cells.map (catCode cats)) := by
+  refine ⟨?_, categorical_exact_match cats hnd c cells h⟩
+  rw [getByteMap, categoricalTransformChecked_packTable _ c cells h, firstUnmatched_getByteMap cats hnd]
+  congr 2
+  apply List.map_congr_left
+  intro cell _
+  simp only [scanCode, catCode, scanCode_getByteMap cats hnd cell]
+
+/-- what `first_unmatched = some r` means: row `r` equals no key, every earlier row of the chunk equals one -/
+theorem first_unmatched_is_first (cats : List (Bytes × Int)) (cells : List Bytes) :
+    (firstNoKey cats cells = none ↔ ∀ cell ∈ cells, cell ∈ cats.map (·.1)) ∧
+    ∀ r, firstNoKey cats cells = some r →
+      ∃ pre x post, cells = pre ++ x :: post ∧ pre.length = r ∧ x ∉ cats.map (·.1) ∧ ∀ cell ∈ pre, cell ∈ cats.map (·.1) := by
+  have key : ∀ cell, (lookup cats cell).isSome ↔ cell ∈ cats.map (·.1) := by
+    intro cell
+    constructor
+    · intro hs
+      apply Classical.byContradiction
+      intro hn
+      rw [lookup_no_partial_match cats cell hn] at hs
+      cases hs
+    · intro hm
+      cases hl : lookup cats cell with
+      | some v => rfl
+      | none =>
+        obtain ⟨kv, hk, he⟩ := List.mem_map.mp hm
+        exact absurd he ((lookup_eq_none_iff cats cell).mp hl kv hk)
+  refine ⟨?_, ?_⟩
+  · rw [firstNoKey_eq_none_iff]
+    exact ⟨fun h cell hc => (key cell).mp (h cell hc), fun h cell hc => (key cell).mpr (h cell hc)⟩
+  · intro r hr
+    obtain ⟨pre, x, post, he, hlen, hx, hpre⟩ := firstNoKey_eq_some cats cells r hr
+    refine ⟨pre, x, post, he, hlen, ?_, fun cell hc => (key cell).mp (hpre cell hc)⟩
+    intro hm
+    have := (key x).mpr hm
+    rw [hx] at this
+    cases this
+
+/-- the column specification `catColumn`: `some codes` exactly when every cell is a key, and then row `i` holds the value
+    listed for the key that cell `i` equals; `none` exactly when some cell is no key -/
+theorem catColumn_spec (cats : List (Bytes × Int)) (hnd : (cats.map (·.1)).Nodup) (cells : List Bytes) :
+    (∀ codes, catColumn cats cells = some codes →
+      codes.length = cells.length ∧ ∀ i (hi : i < cells.length) (hj : i < codes.length), (cells[i], codes[i]) ∈ cats) ∧
+    (catColumn cats cells = none ↔ ∃ cell ∈ cells, cell ∉ cats.map (·.1)) := by
+  have hfirst := (first_unmatched_is_first cats cells).1
+  refine ⟨?_, ?_⟩
+  · intro codes hc
+    have hall : ∀ cell ∈ cells, (lookup cats cell).isSome := (catColumn_isSome_iff cats cells).mp (by rw [hc]; rfl)
+    rw [catColumn_eq_map cats cells hall] at hc
+    cases hc
+    refine ⟨by simp, ?_⟩
+    intro i hi hj
+    have hs := hall cells[i] (List.getElem_mem hi)
+    cases hl : lookup cats cells[i] with
+    | none => rw [hl] at hs; cases hs
+    | some v =>
+      have := (lookup_eq_some_iff hnd cells[i] v).mp hl
+      simpa [catCode, hl] using this
+  · constructor
+    · intro hn
+      apply Classical.byContradiction
+      intro hne
+      have hall : ∀ cell ∈ cells, cell ∈ cats.map (·.1) := by
+        intro cell hc
+        apply Classical.byContradiction
+        intro hm
+        exact hne ⟨cell, hc, hm⟩
+      have := catColumn_eq_map cats cells ((firstNoKey_eq_none_iff cats cells).mp (hfirst.mpr hall))
+      rw [hn] at this
+      cases this
+    · rintro ⟨cell, hc, hm⟩
+      apply catColumn_eq_none
+      intro hall
+      have := hall cell hc
+      rw [lookup_no_partial_match cats cell hm] at this
+      cases this
+
+/-- `CategoricalImporter` with fix NC06d over any chunking, from any data already written: the chunks are imported up to
+    the first one that holds a cell which is no key, and that `import_part` raises -/
+theorem categorical_import_checked (cats : List (Bytes × Int)) (hnd : (cats.map (·.1)).Nodup) (chunks : List Chunk)
+    (cellss : List (List Bytes)) (h : EncodesAll chunks cellss) (data : List Int) :
+    categoricalImportChecked cats chunks data =
+      match catColumn cats cellss.flatten with
+      | some codes => .ok (data ++ codes)
+      | none => .error notACategory := by
+  induction h generalizing data with
+  | nil => simp [categoricalImportChecked, catColumn]
+  | @cons c cells cs cellss hc _ ih =>
+    rw [categoricalImportChecked, categoricalImportPart_spec cats hnd c cells hc, List.flatten_cons, catColumn_append]
+    cases h1 : catColumn cats cells with
+    | none => rfl
+    | some x =>
+      simp only
+      rw [ih]
+      cases catColumn cats cellss.flatten with
+      | none => rfl
+      | some y => simp
+
+/-- **categorical_property** (full strength since fix NC06d). A categorical column without free text, cut into chunks in
+    any way: either EVERY cell is a category key and the column holds, row by row, the value listed for the key the cell
+    equals (whole-string match: `(cell, code) ∈ cats`); or some cell is no key and the import raises `ValueError` — it
+    never stores a code for text that is no category. Which of the two happens depends on the cells only, not on the
+    chunking. (Which chunk raises: the first that holds such a cell, for its first such row — `categorical_import_checked`,
+    `categorical_transform_checked`, `first_unmatched_is_first`.) -/
+theorem categorical_property (cats : List (Bytes × Int)) (hnd : (cats.map (·.1)).Nodup) (chunks : List Chunk)
+    (cellss : List (List Bytes)) (h : EncodesAll chunks cellss) :
+    ((∀ cell ∈ cellss.flatten, cell ∈ cats.map (·.1)) →
+      ∃ codes, categoricalImportChecked cats chunks [] = .ok codes ∧ codes.length = cellss.flatten.length ∧
+        ∀ i (hi : i < cellss.flatten.length) (hj : i < codes.length), (cellss.flatten[i], codes[i]) ∈ cats) ∧
+    ((∃ cell ∈ cellss.flatten, cell ∉ cats.map (·.1)) →
+      categoricalImportChecked cats chunks [] = .error (.valueError "is not one of the categories")) := by
+  have himp := categorical_import_checked cats hnd chunks cellss h []
+  have hspec := catColumn_spec cats hnd cellss.flatten
+  refine ⟨?_, ?_⟩
+  · intro hall
+    cases hc : catColumn cats cellss.flatten with
+    | none =>
+      obtain ⟨cell, hm, hn⟩ := hspec.2.mp hc
+      exact absurd (hall cell hm) hn
+    | some codes =>
+      rw [hc] at himp
+      exact ⟨codes, by simpa using himp, hspec.1 codes hc⟩
+  · intro hbad
+    rw [hspec.2.mpr hbad] at himp
+    exact himp
+
+/-- whether a categorical import raises does not depend on the chunking: two chunkings of the same cells give the same
+    result -/
+theorem categorical_chunking_unobservable (cats : List (Bytes × Int)) (hnd : (cats.map (·.1)).Nodup)
+    (chunks₁ chunks₂ : List Chunk) (cellss₁ cellss₂ : List (List Bytes)) (h₁ : EncodesAll chunks₁ cellss₁)
+    (h₂ : EncodesAll chunks₂ cellss₂) (hsame : cellss₁.flatten = cellss₂.flatten) :
+    categoricalImportChecked cats chunks₁ [] = categoricalImportChecked cats chunks₂ [] := by
+  rw [categorical_import_checked cats hnd chunks₁ cellss₁ h₁, categorical_import_checked cats hnd chunks₂ cellss₂ h₂, hsame]
 
 /-! ## leaky categorical columns and their free-text companion -/
 
@@ -488,6 +631,32 @@ def demoCats : List (Bytes × Int) := [([97, 98, 99], 3), ([97], 1), ([97, 98], 
 example : (demoCats.map (·.1)).Nodup := by decide
 example : categoricalTransform (getByteMap demoCats) demoChunk = .ok [2, 0, 3] := by
   rw [categorical_exact_match demoCats (by decide) demoChunk _ demo_encodes]; rfl
+example : categoricalTransformChecked (getByteMap demoCats) demoChunk = .ok ([2, 0, 3], some 1) := by
+  rw [(categorical_transform_checked demoCats (by decide) demoChunk _ demo_encodes).1]; rfl
+example : categoricalImportChecked demoCats [demoChunk, demoChunk] [] = .error (.valueError "is not one of the categories") :=
+  (categorical_property demoCats (by decide) _ _ (.cons demo_encodes (.cons demo_encodes .nil))).2 ⟨[], by decide, by decide⟩
+example : categoricalImportChecked (([], 9) :: demoCats) [demoChunk, demoChunk] [] = .ok [2, 9, 3, 2, 9, 3] := by
+  rw [categorical_import_checked (([], 9) :: demoCats) (by decide) _ _ (.cons demo_encodes (.cons demo_encodes .nil))]; rfl
+-- `firstNoKey`: in `ab`, ``, `abc` against `demoCats` the empty cell (row 1) is the first that is no key
+example : firstNoKey demoCats [[97, 98], [], [97, 98, 99]] = some 1 ∧ firstNoKey (([], 9) :: demoCats) [[97, 98], [], [97, 98, 99]] = none := by
+  decide
+example : ∃ pre x post, [[97, 98], [], [97, 98, 99]] = pre ++ x :: post ∧ pre.length = 1 ∧ x ∉ demoCats.map (·.1) ∧
+    ∀ cell ∈ pre, cell ∈ demoCats.map (·.1) :=
+  (first_unmatched_is_first demoCats [[97, 98], [], [97, 98, 99]]).2 1 (by decide)
+example : catColumn (([], 9) :: demoCats) [[97, 98], [], [97, 98, 99]] = some [2, 9, 3] ∧
+    catColumn demoCats [[97, 98], [], [97, 98, 99]] = none := by decide
+example : (∃ cell ∈ [[97, 98], [], [97, 98, 99]], cell ∉ demoCats.map (·.1)) :=
+  ((catColumn_spec demoCats (by decide) [[97, 98], [], [97, 98, 99]]).2).mp (by decide)
+-- both branches of `categorical_property` are inhabited: with `` listed every cell is a key, without it the empty cell is none
+example : ∀ cell ∈ [[[97, 98], [], [97, 98, 99]], [[97, 98], [], [97, 98, 99]]].flatten, cell ∈ ((([], 9) : Bytes × Int) :: demoCats).map (·.1) := by
+  decide
+-- two chunkings of the same six cells (`demoChunk` twice / a chunk without rows in between) give the same result
+def emptyChunk : Chunk := { inds := [0], vals := [], off := 0, cap := 0, rows := 0, col := 0, ncols := 1 }
+example : categoricalImportChecked demoCats [demoChunk, demoChunk] [] = categoricalImportChecked demoCats [demoChunk, emptyChunk, demoChunk] [] :=
+  categorical_chunking_unobservable demoCats (by decide) _ _ [[[97, 98], [], [97, 98, 99]], [[97, 98], [], [97, 98, 99]]]
+    [[[97, 98], [], [97, 98, 99]], [], [[97, 98], [], [97, 98, 99]]]
+    (.cons demo_encodes (.cons demo_encodes .nil))
+    (.cons demo_encodes (.cons ⟨rfl, ⟨0, by simp [EncFrom, emptyChunk], by decide⟩, by decide⟩ (.cons demo_encodes .nil))) rfl
 example : EncodesAll [demoChunk, demoChunk] [[[97, 98], [], [97, 98, 99]], [[97, 98], [], [97, 98, 99]]] :=
   .cons demo_encodes (.cons demo_encodes .nil)
 example : leakyImport [([97], 1), ([97, 98, 99], 7)] [demoChunk, demoChunk] LeakyState.init
